@@ -7,7 +7,7 @@ From Coq Require Import Reals ZArith List Bool Lia Lra Arith Permutation.
 From Interval Require Import Tactic.
 From PR Require Import Base.ZX Base.ListX Base.Slice Base.Num Base.RNum Model.Partition Model.Organise Model.ReduceMask
      Model.Sched
-     Proofs.C19_partition Proofs.C19_raa Proofs.C03_org Proofs.C03_pipe Proofs.C03_refuted Proofs.C03_sphere Proofs.C03_compose
+     Proofs.C19_partition Proofs.C19_raa Proofs.C03_org Proofs.C03_pipe Proofs.C03_refuted Proofs.C03_sphere Proofs.C03_compose Proofs.C03_history
      Gen.GenC03 Proofs.C03_gen.
 From PR Require Model.KDTree.
 Import ListNotations.
@@ -47,6 +47,29 @@ Theorem C03_cached_lonlats : forall (P C : Type) (coord : P -> C) (s : pslice) (
   rows_of s (map (map coord) g) = map coord (rows_of s g).
 Proof. intros P C. exact (@cached_rows_equal P C). Qed.
 Print Assumptions C03_cached_lonlats.
+
+(* ---- histories of calls in one process.  The model of every entry point is a function of the call alone, so a history is
+   [map f]; an implementation that remembers earlier results keeps this law IF its memory key determines everything the
+   result depends on (any bounded memory that only forgets).  A key without the radius does not (refuted): this is the
+   class the call-history oracle of the check exercises on the real code (each call of a history == the same call made first). *)
+Theorem C03_memo_history_if : forall (C K V : Type) (key : C -> K) (keqb : K -> K -> bool),
+  (forall a b, keqb a b = true <-> a = b) ->
+  forall (f : C -> V) (evict : list (K * V) -> list (K * V)), (forall t, incl (evict t) t) ->
+  (forall c c', key c = key c' -> f c = f c') ->
+  forall hist, run_memo key keqb f evict [] hist = map f hist.
+Proof.
+  intros C K V key keqb Hk f evict He Hd hist. apply (memo_history_sound key keqb Hk f evict He Hd). intros k v [].
+Qed.
+Print Assumptions C03_memo_history_if.
+Theorem C03_memo_without_radius_refuted :
+  exists (hist : list (nat * nat)),
+    run_memo (fun c => fst c) Nat.eqb (fun c : nat * nat => fst c + snd c) (fun t => t) [] hist
+    <> map (fun c : nat * nat => fst c + snd c) hist.
+Proof. exact memo_key_without_radius_refuted. Qed.
+Example C03_memo_history_ex :
+  run_memo (fun c : nat * nat => c) (fun a b => Nat.eqb (fst a) (fst b) && Nat.eqb (snd a) (snd b)) (fun c => fst c + snd c) (fun t => firstn 1 t) []
+           [(7, 5); (7, 120); (7, 5)] = [12; 127; 12].
+Proof. reflexivity. Qed.
 
 (* ---- nprocs: whatever slices the scheduler hands out, to whichever worker and in whatever order, as long as together
    they tile [0, n) (C15: the scheduler's slices do), out[s] = f(x[s]) for each of them leaves out = map f x,
